@@ -32,3 +32,9 @@ Lemma ring_min_refuted :
 Proof.
   split; [lia|]. split; [rewrite <- strict_valid_fast_ok; vm_compute; reflexivity|]. split; vm_compute; reflexivity.
 Qed.
+
+(* the margin of the working tree's lz4.h (generated constant: LZ4_DECODER_RING_BUFFER_SIZE(0) - 65536) is at
+   least the 29 bytes the wrap needs: a match at op can reach ring positions >= op + margin + 2 only, and
+   LZ4_wildCopy32 has stored at most [op, op + 31) *)
+Lemma ring_margin_const : 29 <= DECODER_RING_MARGIN.
+Proof. unfold DECODER_RING_MARGIN. lia. Qed.
